@@ -204,9 +204,14 @@ impl Collect for Hinted {
 }
 
 /// child process: publish the hint through a real collector, read the global maximum back
-fn setmax_child(v: u64) {
+fn setmax_child(v: u64, via: &str) {
+    use tracing_subscriber::prelude::*;
     let before = rank_of_filter(&LevelFilter::current());
-    let d = tracing_core::Dispatch::new(Hinted(Some(filter(v))));
+    let d = match via {
+        "layer" => tracing_core::Dispatch::new(tracing_subscriber::registry().with(filter(v))),
+        "fmt" => tracing_core::Dispatch::new(tracing_subscriber::fmt().with_max_level(filter(v)).with_writer(std::io::sink).finish()),
+        _ => tracing_core::Dispatch::new(Hinted(Some(filter(v)))),
+    };
     let after = rank_of_filter(&LevelFilter::current());
     // the tracing crate's re-exported view of the same value
     let after2 = rank_of_filter(&tracing::level_filters::LevelFilter::current());
@@ -235,7 +240,7 @@ fn eval_setmax(c: &Value) -> Value {
     if c["k"] == "setmax2" {
         cmd.arg("setmax2").arg(c["w"].as_u64().unwrap().to_string()).arg(v.to_string());
     } else {
-        cmd.arg("setmax").arg(v.to_string());
+        cmd.arg("setmax").arg(v.to_string()).arg(c["via"].as_str().unwrap_or("collector"));
     }
     let out = cmd.output().unwrap();
     let s = String::from_utf8_lossy(&out.stdout);
@@ -251,8 +256,8 @@ fn eval_setmax(c: &Value) -> Value {
 
 fn main() {
     let args: Vec<String> = std::env::args().collect();
-    if args.len() == 3 && args[1] == "setmax" {
-        setmax_child(args[2].parse().unwrap());
+    if args.len() == 4 && args[1] == "setmax" {
+        setmax_child(args[2].parse().unwrap(), &args[3]);
         return;
     }
     if args.len() == 4 && args[1] == "setmax2" {
